@@ -557,7 +557,7 @@ def _apply_calls(text, res, known, perframe):
                 if e == "W":
                     others = [i for i in idents(a) if i != b]
                     cnt = sum(1 for x in idents(text) if x == b)
-                    if cnt <= 1:
+                    if cnt <= 1 or callee in ("std::fill", "fill", "std::fill_n", "fill_n", "memset"):
                         res["reads"] = [r for r in res["reads"] if r != b] + others
 
 
